@@ -365,3 +365,35 @@ pub mod generic_se {
         fn on_err(&self, _ctx: ReplyCtx, error: String, #[sv::payload(raw)] payload: Binary) -> StdResult<Response<T>> { Ok(Response::new()) }
     }
 }
+
+pub mod payload_named_like_submsg_fields {
+    use super::*;
+    pub struct Contract;
+
+    #[contract]
+    #[sv::features(replies)]
+    impl Contract {
+        pub fn new() -> Self { Self }
+        #[sv::msg(instantiate)]
+        fn instantiate(&self, _ctx: InstantiateCtx) -> StdResult<Response> { Ok(Response::new()) }
+        #[sv::msg(reply, handlers=[h], reply_on=always)]
+        fn on_any(&self, _ctx: ReplyCtx, result: SubMsgResult, gas_limit: u64, msg: String) -> StdResult<Response> { Ok(Response::new()) }
+    }
+}
+
+pub mod payload_named_like_dispatch_locals {
+    use super::*;
+    pub struct Contract;
+
+    #[contract]
+    #[sv::features(replies)]
+    impl Contract {
+        pub fn new() -> Self { Self }
+        #[sv::msg(instantiate)]
+        fn instantiate(&self, _ctx: InstantiateCtx) -> StdResult<Response> { Ok(Response::new()) }
+        #[sv::msg(reply, handlers=[h], reply_on=success)]
+        fn on_ok(&self, _ctx: ReplyCtx, gas_used: u64, note: String) -> StdResult<Response> { Ok(Response::new()) }
+        #[sv::msg(reply, handlers=[h], reply_on=error)]
+        fn on_err(&self, _ctx: ReplyCtx, error: String, gas_used: u64, note: String) -> StdResult<Response> { Ok(Response::new()) }
+    }
+}
